@@ -1129,3 +1129,85 @@ pub fn c20_unwind_test(_w: &mut (), c: &UnwindDrop) -> Verdict {
     }
     Verdict::Pass(Good::nontrivial().class(if c.tcp { "tcp" } else { "unix" }).class(format!("served-before={}", c.served)))
 }
+
+// ------------------------------------------------------------------------------------------
+// C08: connections that are reset before the server gets to accept them, then ordinary ones
+
+#[derive(Clone, Debug, Serialize, Deserialize)]
+pub struct ResetsThenService {
+    pub resets: usize,
+    /// the resets hit a server that is already running (else: they are queued before it starts)
+    pub running: bool,
+    pub later: usize,
+}
+
+pub fn c08_resets_strategy() -> BoxedStrategy<ResetsThenService> {
+    (1usize..12, any::<bool>(), 1usize..4).prop_map(|(resets, running, later)| ResetsThenService { resets, running, later }).boxed()
+}
+
+fn c08_resets_once(c: &ResetsThenService) -> Option<Result<(), String>> {
+    use std::os::unix::io::AsRawFd;
+    let listener = std::net::TcpListener::bind("127.0.0.1:0").ok()?;
+    let addr = listener.local_addr().ok()?;
+    let reset_burst = |n: usize| {
+        for _ in 0..n {
+            if let Ok(s) = std::net::TcpStream::connect(addr) {
+                let l = libc::linger { l_onoff: 1, l_linger: 0 };
+                unsafe {
+                    libc::setsockopt(s.as_raw_fd(), libc::SOL_SOCKET, libc::SO_LINGER, &l as *const _ as *const libc::c_void, std::mem::size_of::<libc::linger>() as libc::socklen_t);
+                }
+                drop(s);
+            }
+        }
+    };
+    let server;
+    if c.running {
+        server = tiny_http::Server::from_listener(listener, None).ok()?;
+        std::thread::sleep(Duration::from_millis(10));
+        reset_burst(c.resets);
+    } else {
+        reset_burst(c.resets);
+        std::thread::sleep(Duration::from_millis(10));
+        server = tiny_http::Server::from_listener(listener, None).ok()?;
+    }
+    std::thread::sleep(Duration::from_millis(30));
+    for i in 0..c.later {
+        let mut s = match std::net::TcpStream::connect(addr) {
+            Ok(s) => s,
+            Err(e) => return Some(Err(format!("connection #{} after the resets: {}", i, e))),
+        };
+        let _ = s.set_read_timeout(Some(Duration::from_secs(3)));
+        let _ = s.write_all(format!("GET /later{} HTTP/1.1\r\nHost: h\r\nConnection: close\r\n\r\n", i).as_bytes());
+        let t0 = Instant::now();
+        let mut served = false;
+        while t0.elapsed() < Duration::from_secs(3) {
+            match server.recv_timeout(Duration::from_millis(100)) {
+                Ok(Some(rq)) => {
+                    let mine = rq.url() == format!("/later{}", i);
+                    let _ = rq.respond(tiny_http::Response::from_string("ok"));
+                    if mine {
+                        served = true;
+                        break;
+                    }
+                }
+                Ok(None) => {}
+                Err(e) => return Some(Err(format!("recv reported {:?} ({}) after the resets", e.kind(), e))),
+            }
+        }
+        if !served {
+            return Some(Err(format!("request /later{} was not delivered within 3 s", i)));
+        }
+    }
+    Some(Ok(()))
+}
+
+pub fn c08_resets_test(_w: &mut (), c: &ResetsThenService) -> Verdict {
+    match c08_resets_once(c) {
+        None => Verdict::Pass(Good::trivial().class("scenario-not-set-up")),
+        Some(Ok(())) => Verdict::Pass(Good::nontrivial().class(if c.running { "resets-on-a-running-server" } else { "resets-queued-before-the-server-starts" })),
+        Some(Err(first)) => match c08_resets_once(c) {
+            Some(Err(second)) => fail("C08/real/service-stops-after-reset-connections", format!("twice in a row, after {} connections that were reset before the server accepted them: {} / {}", c.resets, first, second)),
+            _ => Verdict::Pass(Good::trivial().class("failed-once-not-repeated")),
+        },
+    }
+}
